@@ -42,6 +42,11 @@ pub mod mm {
     }
     #[inline]
     pub fn floor(x: f32) -> f32 {
+        // Micromath goes through `i32`. Values this large have no fraction
+        // bits left (also inf, NaN)
+        if !(abs(x) < 8_388_608.0) {
+            return x;
+        }
         mm::floor(x)
     }
     #[inline]
@@ -106,6 +111,11 @@ pub mod fallback {
     /// Returns the largest integer less than or equal to `x`.
     #[inline]
     pub fn floor(x: f32) -> f32 {
+        // Values this large have no fraction bits left (also inf, NaN),
+        // and need not fit in an `i64`
+        if !(abs(x) < 8_388_608.0) {
+            return x;
+        }
         let trunc = x as i64 as f32;
         // Truncation rounds negative non-integers up, towards zero
         if trunc > x { trunc - 1.0 } else { trunc }
